@@ -264,6 +264,19 @@ type Worker struct {
 	nrep      int
 }
 
+// Guarded runs a case that may take the whole process down (a fatal runtime
+// error such as stack exhaustion cannot be recovered): its replay file is
+// written first and removed when the case returns, so that the driver finds
+// it if the process dies.
+func (w *Worker) Guarded(c *Case, run func() *Result) *Result {
+	path := filepath.Join(w.replayDir, fmt.Sprintf("%s-%d-%d-inflight.json", w.Prop.ID, w.Stats.Seed, w.Stats.Worker))
+	v := &simrt.Violation{Class: "crash", Site: "process-died", Text: "the process died while this case was running (fatal runtime error, e.g. stack exhaustion)"}
+	WriteReplay(path, c, &Result{Viol: v})
+	res := run()
+	os.Remove(path)
+	return res
+}
+
 // Report accounts for one executed case and handles a violation: minimise,
 // write the replay file, remember the signature.
 func (w *Worker) Report(c *Case, res *Result) {
